@@ -12,6 +12,7 @@ open Oc.Queue
 inductive TStep where
   | susp | delay (d : Nat) | panic | ret (v : Nat)
   | cancelSelf      -- the running task's coroutine is cancelled (`suspender.cancel()`, what the cancel signal does)
+  | nest            -- the task submits a further task (`R77`, priority 0) to its own pool from inside its body
 deriving Repr, DecidableEq
 
 inductive PState where
@@ -52,9 +53,18 @@ structure Pool where
   droppedTasks : List Nat := []
   /-- tasks whose body has started, in order -/
   started : List Nat := []
+  /-- submissions made by task bodies: (submitting task, accepted?) in order -/
+  nested : List (Nat × Bool) := []
 deriving Repr
 
 def U64MAX : Nat := 18446744073709551615
+
+/-- `submit_task` called from inside the body of task `t` (same acceptance rule as from outside; a
+rejected submission still consumes an id, as in `submit`) -/
+def nestSubmit (p : Pool) (t : Nat) : Pool :=
+  match p.state with
+  | .running => { p with tasks := p.tasks.push 0 p.progs.length, progs := p.progs ++ [[.ret 77]], nested := p.nested ++ [(t, true)] }
+  | _ => { p with progs := p.progs ++ [[]], nested := p.nested ++ [(t, false)] }
 
 /-- `try_grow`: one more worker if there is queued work and room -/
 def tryGrow (p : Pool) : Pool :=
@@ -101,6 +111,8 @@ def resumeWorker : Nat → Pool → Nat → Pool
           resumeWorker f (setWorker (finish { p with runningTasks := p.runningTasks.filter (fun e => e.1 != t) } t (.err "boom")) w { x with task := none, rest := [] }) w
         | .ret v :: _ =>
           resumeWorker f (setWorker (finish { p with runningTasks := p.runningTasks.filter (fun e => e.1 != t) } t (.ok v)) w { x with task := none, rest := [] }) w
+        | .nest :: r =>
+          resumeWorker f (nestSubmit (setWorker p w { x with rest := r }) t) w
         | .cancelSelf :: _ =>
           -- the worker coroutine ends as Cancelled in the middle of the task: the listener gives
           -- its slot back and tries to grow; the task never produces a result
